@@ -36,7 +36,7 @@ TStep ==
           \/ (e.a = "Check" /\ Check)
           \/ (e.a = "Mismatch" /\ Mismatch)
           \/ (e.a = "WaitTimeout" /\ WaitTimeout)
-          \/ (e.a = "Stop" /\ Stop)
+          \/ (e.a = "Stop" /\ StopBody)
        /\ att' = e.att
        /\ receivers' = SetOf(e.recv)
        /\ ConfOf(confirmed') = ConfSet(e.conf)
